@@ -158,7 +158,7 @@ func (g *gen) one(x exchange) {
 	key := fmt.Sprintf("%s|%s|%s|%d|%v", x.Stack, x.Cfg.name(), x.Req.name()+x.Req.AE+x.Req.Range, s.ID, x.Pat)
 	nt := len(s.CE) > 0 || x.Cfg.Auto || x.Req.AE != "" || x.Req.Method == "HEAD"
 	r.Add(hk.Case{Coq: coqCase(x, o), Desc: desc}, key, nt)
-	if g.singles++; g.singles%g.r.Scale(25, 5) == 0 {
+	if g.singles++; g.singles%g.r.Scale(15, 4) == 0 {
 		g.flushSeq(1)
 	}
 }
@@ -353,5 +353,7 @@ func (g *gen) run() {
 
 	// F-H. high-level API, zlib-wrapped deflate, 206
 	g.runExtra()
+	// I. concurrent readers
+	g.runConcurrent()
 	g.flushSeq(len(g.seqCases))
 }
